@@ -126,6 +126,46 @@ pub fn build_with(seq: &[RegOp], auth: AuthMethod, extra_mapped_event: bool) -> 
     app
 }
 
+macro_rules! fillers {
+    ($($n:ident),*) => { $(#[derive(Component, Resource, Default)] pub struct $n;)* };
+}
+fillers!(N0, N1, N2, N3, N4, N5);
+
+/// The same registrations in an app that is built differently in ways the protocol does not care about: `shape` bit 0-2 =
+/// number of unrelated components / resources registered first, bit 3 = a dedicated server (no client plugins), bit 4 = a
+/// pure client (no server plugins).
+pub fn hash_of_shaped(seq: &[RegOp], shape: u8) -> ProtocolHash {
+    let mut app = App::new();
+    let shared = RepliconSharedPlugin { auth_method: AuthMethod::ProtocolCheck };
+    if shape & 8 != 0 {
+        app.add_plugins((MinimalPlugins, RepliconPlugins.build().disable::<ClientPlugin>().disable::<ClientEventPlugin>().set(shared)));
+    } else if shape & 16 != 0 {
+        app.add_plugins((MinimalPlugins, RepliconPlugins.build().disable::<ServerPlugin>().disable::<ServerEventPlugin>().set(shared)));
+    } else {
+        app.add_plugins((MinimalPlugins, RepliconPlugins.set(shared)));
+    }
+    let n = shape & 7;
+    if n >= 1 {
+        app.world_mut().register_component::<N0>();
+    }
+    if n >= 2 {
+        app.init_resource::<N1>();
+    }
+    if n >= 3 {
+        app.world_mut().register_component::<N2>();
+        app.world_mut().spawn(N3);
+    }
+    if n >= 5 {
+        app.init_resource::<N4>();
+        app.init_resource::<N5>();
+    }
+    for &op in &normalize(seq) {
+        apply(&mut app, op);
+    }
+    app.finish();
+    *app.world().resource::<ProtocolHash>()
+}
+
 pub fn hash_of(seq: &[RegOp]) -> ProtocolHash {
     *build(seq, AuthMethod::ProtocolCheck).world().resource::<ProtocolHash>()
 }
@@ -144,6 +184,9 @@ pub struct Case {
     pub seq: Vec<RegOp>,
     pub edit: Edit,
     pub e2e: bool,
+    /// how the second build of the unedited sequence differs in things that are not registrations (see `hash_of_shaped`)
+    #[serde(default)]
+    pub shape: u8,
 }
 
 pub fn edited(seq: &[RegOp], e: &Edit) -> Vec<RegOp> {
@@ -269,6 +312,15 @@ pub fn run(c: &Case) -> Outcome {
     if ha != ha2 {
         return Outcome::failed(Fail::new("C14.nondeterministic", format!("same sequence hashed to {ha:?} and {ha2:?}")));
     }
+    if c.shape != 0 {
+        let hs = hash_of_shaped(&a, c.shape);
+        if hs != ha {
+            return Outcome::failed(Fail::new(
+                "C14.unrelated_state",
+                format!("the same registration sequence {a:?} hashes to {ha:?} in a plain app and to {hs:?} in an app of shape {:#07b} (unrelated components / resources, disabled plugins)", c.shape),
+            ));
+        }
+    }
     let hb = hash_of(&b);
     if equal && ha != hb {
         return Outcome::failed(Fail::new("C14.equal_differ", format!("equal sequences {a:?} hash differently")));
@@ -292,6 +344,9 @@ pub fn run(c: &Case) -> Outcome {
     });
     if c.e2e {
         out.classes.push("e2e");
+    }
+    if c.shape != 0 {
+        out.classes.push("differently_built_app");
     }
     out
 }
@@ -319,7 +374,8 @@ fn case_strategy() -> impl Strategy<Value = Case> {
         2 => any::<u16>().prop_map(Edit::Delete),
         3 => (any::<u16>(), regop()).prop_map(|(i, o)| Edit::Replace(i, o)),
     ];
-    (proptest::collection::vec(regop(), 0..12), edit, proptest::bool::weighted(0.15)).prop_map(|(seq, edit, e2e)| Case { seq, edit, e2e })
+    let shape = prop_oneof![2 => Just(0u8), 3 => 1u8..32];
+    (proptest::collection::vec(regop(), 0..12), edit, proptest::bool::weighted(0.15), shape).prop_map(|(seq, edit, e2e, shape)| Case { seq, edit, e2e, shape })
 }
 
 pub struct C14;
@@ -375,8 +431,8 @@ impl Prop for C14 {
     fn rule(&self) -> String {
         "case = registration sequence (0..12 ops over replicate / replicate_with_priority / replicate_once / replicate_bundle over 5 component types, client/server \
          events and triggers over 5 event types, independence marks only after what they refer to, each registration at most once) plus one edit (none, swap of \
-         neighbours, insert, delete, replace); oracle: hashes equal <=> canonical sequences equal, the same sequence hashes identically twice (and in a separate \
-         process, unit cross_process); 15% of the cases also run end to end with AuthMethod::ProtocolCheck: authorized <=> equal, otherwise ProtocolMismatch reaches \
+         neighbours, insert, delete, replace); oracle: hashes equal <=> canonical sequences equal, the same sequence hashes identically twice (in a separate \
+         process, unit cross_process; and in an app that first registers 1..5 unrelated components / resources or is built as a dedicated server / pure client); 15% of the cases also run end to end with AuthMethod::ProtocolCheck: authorized <=> equal, otherwise ProtocolMismatch reaches \
          the client and a DisconnectRequest names it. non-trivial = the pair differs and the sequence has >= 3 registrations"
             .into()
     }
